@@ -25,6 +25,20 @@ type tcase struct {
 // takes seconds to minutes, not microseconds.
 const hugeLimit = 15 * time.Minute
 
+// acase: Left and Right are views of one backing array of lines.
+type acase struct {
+	S              []int `json:"backing"`
+	A0, A1, B0, B1 int
+	N              int `json:"n"`
+}
+
+// aliasing is set while checkL runs on behalf of checkAliased: the slices it
+// builds from t.L and t.R are replaced by views of one array.
+func checkAliased(a acase) *mc.Failure {
+	lines := mdiffh.Lines(a.S, alphabet)
+	return checkViews(tcase{L: a.S[a.A0:a.A1], R: a.S[a.B0:a.B1], N: a.N}, lines[a.A0:a.A1], lines[a.B0:a.B1])
+}
+
 // lcase describes a long pair (mdiffh.LongPair) and a context size.
 type lcase struct {
 	N    int  `json:"lines"`
@@ -104,12 +118,18 @@ func check(t tcase) *mc.Failure { return checkL(t, 0) }
 // checkL is check with its own hang limit (0: the default), for the cases
 // whose quadratic edit script takes seconds.
 func checkL(t tcase, limit time.Duration) *mc.Failure {
+	al := alphabet
+	if t.Alpha != nil {
+		al = t.Alpha
+	}
+	return checkViewsL(t, mdiffh.Lines(t.L, al), mdiffh.Lines(t.R, al), limit)
+}
+
+func checkViews(t tcase, left, right []string) *mc.Failure { return checkViewsL(t, left, right, 0) }
+
+// checkViewsL runs the oracle on the given line slices (which may share storage).
+func checkViewsL(t tcase, left, right []string, limit time.Duration) *mc.Failure {
 	return mc.GuardTL("chunks", t, limit, func() *mc.Failure {
-		al := alphabet
-		if t.Alpha != nil {
-			al = t.Alpha
-		}
-		left, right := mdiffh.Lines(t.L, al), mdiffh.Lines(t.R, al)
 		l0, r0 := append([]string(nil), left...), append([]string(nil), right...)
 		d := mdiff.New(left, right)
 		edits0 := snapshot([]*mdiff.Chunk{{Edits: d.Edits}})[0].edits
@@ -253,6 +273,43 @@ func main() {
 				return mc.Failf(-1, "bad trace: %v", err)
 			}
 			return check(t)
+		},
+	}, mc.Harness{
+		Name: "chunks-aliased",
+		Explore: func(r *mc.Run) {
+			seqs := mc.AllSeqs(2, mc.Pick(r, 5, 6))
+			var evals int64
+			mc.ParallelFor(len(seqs), r.Workers, func(i int) {
+				s := seqs[i]
+				n := len(s)
+				var k int64
+				for a0 := 0; a0 <= n; a0++ {
+					for a1 := a0; a1 <= n; a1++ {
+						for b0 := 0; b0 <= n; b0++ {
+							for b1 := b0; b1 <= n; b1++ {
+								for _, ctx := range []int{0, 1, 2} {
+									a := acase{s, a0, a1, b0, b1, ctx}
+									if f := checkAliased(a); f != nil {
+										r.Violation(mc.Case{Harness: "chunks-aliased", Trace: mc.J(a), Msg: "Left and Right are views of one array of lines: " + f.Msg})
+									}
+									k++
+								}
+							}
+						}
+					}
+				}
+				atomic.AddInt64(&evals, k)
+			})
+			r.AddEval(int64(len(seqs)), evals, evals, evals)
+			r.Rule("New/AddContext/Unify with Left and Right every pair of subslices of one backing array of lines (same start, prefixes of each other, overlapping), context 0..2")
+			r.Sample(acase{[]int{0, 1, 1}, 0, 1, 0, 3, 1})
+		},
+		Replay: func(c mc.Case) *mc.Failure {
+			var a acase
+			if err := mc.Unmarshal(c.Trace, &a); err != nil {
+				return mc.Failf(-1, "bad trace: %v", err)
+			}
+			return checkAliased(a)
 		},
 	}, mc.Harness{
 		Name: "chunks-long", HangLimit: hugeLimit,
